@@ -11,6 +11,7 @@ with the content hash of EVERY live object compared after every step.
 """
 import hashlib
 import inspect
+import json
 import operator
 import random
 
@@ -227,7 +228,7 @@ def reflection_part(j):
     for cname in elems.MAIN8 + elems.EXTRA + ["SpatialInertia"]:
         C = elems.CLS[cname]
         for m in (1, 2, 3):
-            names = [a for a in dir(C) if not a.startswith("_")]
+            names = [a for a in dir(C) if not a.startswith("_")] + ["__repr__", "__str__", "__len__", "__iter__", "__neg__"]
             for name in names:
                 if name in SKIP_METHODS:
                     continue
@@ -399,9 +400,28 @@ def run(tier):
         if replay_heap(j, h, rng):
             complete += 1
     j.sample({"heap-program": [s["call"] for s in rs.json[0][:8]]})
-    cov = {"states": ra.distinct + rd.distinct + rsmall.distinct,
-           "transitions": ra.generated + rd.generated + rsmall.generated + rs.generated,
-           "traces_validated_against_impl": n_api + n_op + n_ref + len(rs.json),
+    # (e) value semantics: objects derived from one another (indexing, slicing, construction from objects, append /
+    # extend / insert) and then mutated through the list interface - exhaustive short behaviours of Sharing.tla,
+    # EVERY live object compared after EVERY step
+    import sharelib
+    rsh = run_tlc("Sharing", "Sharing", stream=True, timeout=900)
+    shclasses = elems.MAIN8 if thorough else ["SE3", "UnitQuaternion", "Twist3", "SO2"]
+    n_sh, seen_sh = 0, set()
+    for h in rsh.iter_json():
+        key = json.dumps([st["call"] for st in h], sort_keys=True)
+        if key in seen_sh:
+            continue
+        seen_sh.add(key)
+        # quick: each behaviour in one class (rotating); thorough: in every class
+        for cname in (shclasses if thorough else [shclasses[n_sh % len(shclasses)]]):
+            sharelib.replay(j, PID, cname, h)
+        n_sh += 1
+    if n_sh < 20000:
+        raise MachineryError("sharing export too small: %d" % n_sh)
+    cov = {"states": ra.distinct + rd.distinct + rsmall.distinct + rsh.distinct,
+           "transitions": ra.generated + rd.generated + rsmall.generated + rs.generated + rsh.generated,
+           "traces_validated_against_impl": n_api + n_op + n_ref + len(rs.json) + n_sh,
+           "sharing_behaviours_depth3": n_sh,
            "api_calls": n_api, "operator_cells": n_op, "reflected_members": n_ref,
            "heap_behaviours": len(rs.json), "heap_behaviours_replayed_to_the_end": complete,
            "heap_model_small_exhaustive": rsmall.stats(),
